@@ -258,6 +258,9 @@ func (e *Engine) callModSet(ms map[string]bool, c *ssa.CallCommon, locals map[*s
 		return
 	}
 	if c.IsInvoke() {
+		if nm := (*Frame)(nil).callName(c, nil); strings.HasPrefix(nm, "binary.ByteOrder.Uint") || strings.HasPrefix(nm, "binary.ByteOrder.String") {
+			return // built-in model: reads only
+		}
 		// an interface method with a `pure` contract (litefs.OS.*, Invalidator.*, Client.*) has no heap effect, as at call sites
 		if fc := e.contractFor((*Frame)(nil).callName(c, nil)); fc != nil && fc.Has("pure") {
 			return
@@ -284,6 +287,15 @@ func (e *Engine) callModSet(ms map[string]bool, c *ssa.CallCommon, locals map[*s
 	// a function-valued struct field with a `pure` contract (e.g. field.DB.Now) has no effect, as at call sites
 	if fc := e.contractFor((*Frame)(nil).callName(c, nil)); fc != nil && fc.Has("pure") {
 		return
+	}
+	if p := c.Value.Parent(); p != nil {
+		if fc := e.Contracts[FuncKey(p)]; fc != nil {
+			for _, cl := range fc.Clauses {
+				if cl.Kind == "calleepure" && nameMatches(cl.Callee, (*Frame)(nil).callName(c, nil)) {
+					return
+				}
+			}
+		}
 	}
 	// process exit through a function-valued field (Store.Exit): does not return, as at call sites
 	if strings.HasSuffix((*Frame)(nil).callName(c, nil), ".Exit") {
